@@ -1,6 +1,7 @@
 import Driver.InterpIO
 import PytezosModel.Michelson.Interp.Impl
 import PytezosModel.Michelson.Interp.Spec
+import PytezosModel.Core.HashKeccak
 open Driver Interp
 
 namespace InterpDriver
@@ -43,15 +44,38 @@ def topPushesOk : Instr → Bool
   | .PUSH _ v => implLitOk v
   | _ => true
 
+/-- the executable hash functions the driver plugs into the model (cross-checked against `hashlib` by the `hash` lines) -/
+def execHashes : Hashes :=
+  { blake2b := Core.Hash.blake2b32, sha256 := Core.Hash.sha256, sha512 := Core.Hash.sha512,
+    keccak := Core.Hash.keccak256, sha3 := Core.Hash.sha3_256 }
+
 def parseEnv : List String → Option Env
-  | [a, b, n, l, snd, src, slf, cid] => do
+  | [a, b, n, l, snd, src, slf, cid, tvp, mbt] => do
     pure { amount := ← parseInt a, balance := ← parseInt b, now := ← parseInt n, level := ← parseInt l,
            sender := codes (← hexToString snd), source := codes (← hexToString src),
-           self := codes (← hexToString slf), chainId := codes (← hexToString cid) }
+           self := codes (← hexToString slf), chainId := codes (← hexToString cid),
+           totalVotingPower := ← parseInt tvp, minBlockTime := ← parseInt mbt, hashes := execHashes }
   | _ => none
+
+/-- `hash <blake2b|sha256|sha512|keccak|sha3> <hex>` -/
+def handleHash : List String → String
+  | [algo, hx] =>
+    match parseHex hx with
+    | some b =>
+      if algo == "blake2b" then toHex (Core.Hash.blake2b32 b)
+      else if algo == "sha256" then toHex (Core.Hash.sha256 b)
+      else if algo == "sha512" then toHex (Core.Hash.sha512 b)
+      else if algo == "keccak" then toHex (Core.Hash.keccak256 b)
+      else if algo == "sha3" then toHex (Core.Hash.sha3_256 b)
+      else "bad-op"
+    | none => "bad-op"
+  | _ => "bad-op"
 
 /-- `impl|spec <fuel> | <amount balance now level sender source self chain_id> | <program>` -/
 def handle (line : String) : String :=
+  match words line with
+  | "hash" :: rest => handleHash rest
+  | _ =>
   match splitBar (words line) with
   | [[cmd, fuel], envw, prog] =>
     match fuel.toNat?, parseEnv envw, (parseMichTokens prog).bind instrOfMich with
